@@ -9,6 +9,7 @@ import tempfile
 import zipfile
 from pathlib import Path
 
+import common
 from common import REPO, Ctx, enc_bytes, exc_name
 
 PID = "C05"
@@ -17,7 +18,12 @@ THEOREMS = [f"NumbersModel.Props.C05.{t}" for t in (
     "varint_roundtrip", "varint_roundtrip_wide", "varint_length", "unframe_frame", "unframe_pieces",
     "chunking_independent", "chunking_independent_stored", "container_rules", "header_lengths_match",
     "is_iwa_file_of_encoded", "seg_decode_encode", "decode_encode", "encode_decode_stream",
-    "length_field_truncates")]
+    "length_field_truncates",
+    # the chunk framing as py2lean regenerates it from iwafile.py on every run, proved equal to the model for all byte
+    # strings, and the clauses restated over the translation
+    "Src.src_framing_eq_model", "Src.src_archive_info_eq_model", "Src.src_unframe_frame", "Src.src_chunking_independent",
+    "Src.src_chunking_independent_stored", "Src.src_container_rules", "Src.src_is_iwa_file_of_encoded")]
+TRANSLATED_GROUPS = ("Iwa",)
 PARTIAL: dict[str, str] = {}
 RULE = ("a case is one protocol request (one byte string / one archive member / one synthetic archive / one re-chunking) "
         "run through the real codec and the model with the third-party answers recorded from that very call; it is "
@@ -34,7 +40,14 @@ MANIFEST = {
             "64 KiB slice, parse∘serialise = id and serialise∘parse = id on well-formed input) are explicit hypotheses, "
             "exercised (not proved) on every fixture member. The model is tied to the code by differential runs on every "
             ".iwa member of every fixture (thorough; ~600 sampled in quick), synthetic archives around the 64 KiB "
-            "boundaries, exhaustive small byte strings, and re-chunkings at random cut sets.",
+            "boundaries, exhaustive small byte strings, and re-chunkings at random cut sets. Second tie: the chunk framing is "
+            "additionally TRANSLATED from iwafile.py on every run (harness/py2lean.py group Iwa -> Gen/TrIwa.lean: is_iwa_file, "
+            "the generator IWACompressedChunk._decompress_all incl. its try/except fallback, IWACompressedChunk.to_buffer from the "
+            "joined archive bytes on, get_archive_info_and_remainder) and proved equal to the model for ALL byte strings and every "
+            "behaviour of snappy / protobuf (Src.src_framing_eq_model, src_archive_info_eq_model: loops one iteration at a time, "
+            "fuel len + 1 suffices); unframe_frame / chunking_independent(_stored) / container_rules / is_iwa_file_of_encoded are "
+            "restated over the translation (Src.src_*); the un-framing, sniffing and framing streams also go through the "
+            "translated definitions (trdriver).",
     "note": "the laws of snappy/protobuf (incl. retention of unknown fields) are assumptions; ByteSize() == "
             "len(SerializeToString()) is assumed and exercised",
     "technique": "Lean 4 proof (induction over fuel/lists, omega) + differential correspondence with recorded oracle tables",
@@ -45,6 +58,9 @@ ASSUMPTIONS = [
     "messages of the fixtures (exercised on every header/message seen; unknown fields retained)",
     "header.ByteSize() == len(header.SerializeToString()) (exercised on every header seen)",
     "`result |= (b & 0x7f) << shift` is modelled with + and * (bits are disjoint); exercised exhaustively on short inputs",
+    "translated definitions: the semantics py2lean / Py/Trans.lean give to the Python subset (bytes slicing, unpack('<I') / "
+    "struct.pack('<I') as PyT.unpackU32LE / packU32LE, a generator consumed as a whole as the list of what it yields, "
+    "try/except as a match on the outcome); _DecodeVarint32 (protobuf's) is the hand model varintDec32, compared on every run",
 ]
 
 
@@ -611,7 +627,7 @@ def run(ctx: Ctx):
         req.append(f"iwa isiwa {enc_bytes(d)}")
         out.append(_call(lambda: IW.is_iwa_file(d), lambda b: str(int(b))))  # noqa: B023
     ctx.correspond("_decompress_all / is_iwa_file: all strings of length <= 5 over {00,01,02,05,ff}, framed edge cases, seeded",
-                   req, out, exhaustive=True)
+                   req, out, exhaustive=True, translated=True)
 
     lap("unframe")
     # --- 3. framing: real IWACompressedChunk.to_buffer driven with arbitrary streams -------------
@@ -651,7 +667,7 @@ def run(ctx: Ctx):
             else:
                 ctx.violation("frame-raises", f"to_buffer raised {o} on a {n}-byte stream", inp)
     ctx.correspond("to_buffer framing: stream sizes 0..39, 255..257, 65535..65537, 131071..131073, 196608, 200000 x 3 contents",
-                   req, out, exhaustive=False)
+                   req, out, exhaustive=False, translated=True)
     # frames of given payloads with a fake compressor (payload sizes the real snappy never produces)
     req, out = [], []
     for plen in (0, 1, 255, 256, 65535, 65536, 70000, (1 << 24) - 1 if not ctx.quick else 300_000):
@@ -696,6 +712,21 @@ def run(ctx: Ctx):
         req.append(f"iwa segfrom {enc_bytes(b)} " + rec.tables())
         out.append(o)
     ctx.correspond("IWAArchiveSegment.from_buffer on synthetic, truncated, bit-flipped and hand-made segments", req, out)
+    # get_archive_info_and_remainder on the same buffers vs the definition translated from the source
+    gair = getattr(IW, "get_archive_info_and_remainder", None)
+    req, out = [], []
+    for b in (seg_inputs if gair is not None else []):
+        rec = Recorder()
+        with rec.active():
+            try:
+                h, rest = gair(b)
+                o = f"ok {rec.hid(h)} {len(rest)}"
+            except Exception as e:  # noqa: BLE001
+                o = "err " + exc_name(e)
+        req.append(f"iwa archinfo {enc_bytes(b)} " + rec.tables())
+        out.append(o)
+    common.translated_only_stream(ctx, "get_archive_info_and_remainder on the segment buffers vs the definition translated from "
+                                       "the source", req, out)
 
     lap("segments")
     # --- 5. whole files: fixtures ----------------------------------------------------------------
